@@ -286,6 +286,9 @@ impl ParseSess {
 
     pub(super) fn reset_errors(&self) {
         self.raw_psess.dcx().reset_err_count();
+        // The errors forgotten here were those of an ignored file; what is reported
+        // afterwards has to earn the permission again.
+        self.can_reset_errors.store(false, Ordering::Release);
     }
 }
 
